@@ -50,6 +50,8 @@ func checkC09(r *Report, p *Program) {
 	revisionLabelsAgree(r, p, "R09.15")
 	// building a revision (its name is cut to length) cannot panic the worker
 	constantSlicesBounded(r, p, "R09.16", 1)
+	// children are managed for a dying parent exactly when syncRevisions handled its revisions (ShouldFinalize on both sides) — shared with C10
+	r10_4(r, p, syncEntries(r, p, "R10.1"))
 	// a failed claim / revision write stops the sync before children are reconciled from an incomplete view (R12.1 on the revision code)
 	errorRule(r, p, "R09.9", 8, func(f *ssa.Function) bool {
 		file := p.File(f)
@@ -913,6 +915,65 @@ func revisionLabelsAgree(r *Report, p *Program, rule string) {
 		ok, why = false, "makeSelector does not select by controller-uid exactly once"
 	}
 	r.Check(rule, FK(nf)+"↔makeSelector", p.Pos(nf.Pos()), ok, "same polarity, same UID", why)
+	// the parent-type labels a new revision gets are exactly what claimRevisions requires, with the same values
+	cr := fn(r, p, rule, "controller/composite.parentController.claimRevisions")
+	if cr == nil {
+		return
+	}
+	typeLabels := func(f *ssa.Function) map[string]string {
+		out := map[string]string{}
+		for _, b := range f.Blocks {
+			for _, in := range b.Instrs {
+				if mu, isMU := in.(*ssa.MapUpdate); isMU {
+					if k, isC := constStr(mu.Key); isC && strings.HasPrefix(k, "metacontroller.k8s.io/") {
+						out[k] = E(mu.Value)
+					}
+				}
+			}
+		}
+		return out
+	}
+	written, required := typeLabels(nf), typeLabels(cr)
+	okT, whyT := len(written) >= 2, "newControllerRevision does not label the revision with the parent's type"
+	for k, v := range written {
+		if rv, has := required[k]; !has {
+			okT, whyT = false, "claimRevisions does not require the label "+k+" that new revisions carry: revisions of another parent type with matching user labels are adopted"
+		} else if rv != v {
+			okT, whyT = false, "label "+k+" is written as "+v+" but required as "+rv+": a revision the controller created itself does not match its own selector and is released (orphaned) on the next sync"
+		}
+	}
+	for k := range required {
+		if _, has := written[k]; !has {
+			okT, whyT = false, "claimRevisions requires the label "+k+" that new revisions do not carry"
+		}
+	}
+	// … and those requirements really are in the selector the claim uses
+	mgrs := callsTo(cr, false, "controllerref.NewControllerRevisionManager")
+	mks := callsTo(cr, false, "parentController.makeSelector")
+	if len(mgrs) != 1 || len(mks) != 1 {
+		okT, whyT = false, "expected one makeSelector and one NewControllerRevisionManager call in claimRevisions"
+	} else {
+		sel := mgrs[0].Common().Args[2]
+		mk := mks[0].Instr.(*ssa.Call)
+		if !engine.MustDependOnCall(sel, func(k string) bool { return strings.HasSuffix(k, "parentController.makeSelector") }, nil) {
+			okT, whyT = false, "the selector handed to the revision claim ("+E(sel)+") is not what makeSelector returned"
+		}
+		extra := mk.Common().Args[len(mk.Common().Args)-1]
+		if _, isMap := engine.ResolveLocal(extra).(*ssa.MakeMap); !isMap {
+			okT, whyT = false, "makeSelector is not given the parent-type labels as extra match labels (got "+E(extra)+")"
+		} else {
+			for _, b := range cr.Blocks {
+				for _, in := range b.Instrs {
+					if mu, isMU := in.(*ssa.MapUpdate); isMU {
+						if k, isC := constStr(mu.Key); isC && strings.HasPrefix(k, "metacontroller.k8s.io/") && engine.ResolveLocal(mu.Map) != engine.ResolveLocal(extra) {
+							okT, whyT = false, "the requirement "+k+" is not put into the map handed to makeSelector"
+						}
+					}
+				}
+			}
+		}
+	}
+	r.Check(rule, FK(cr)+"[type-labels: written = required]", p.Pos(cr.Pos()), okT, "same keys, same values, in the selector used", whyT)
 }
 
 // claimsTables: syncRevisionClaims' two filters and the gate's kind filter, both directions.
@@ -973,7 +1034,7 @@ func claimsTables(r *Report, p *Program, rule string) {
 					ok, why = false, sf("with still-desired=%d claimed-by-earlier=%d a name is claimed %d× and kept %d× (want %d)", desired, taken, nClaim, nKeep, want)
 				}
 				if want == 0 && !(desired == -1 || taken == 1) {
-					ok, why = false, "a recorded name is dropped without being found undesired or already claimed; path: " + pa.Cond()
+					ok, why = false, "a recorded name is dropped without being found undesired or already claimed; path: "+pa.Cond()
 				}
 			}
 			r.Check(rule, FK(f)+"[name-kept⇔desired∧unclaimed]", p.Pos(f.Pos()), ok, "per-name filter", why)
